@@ -105,7 +105,16 @@ var mutOps = []mutOp{
 	{name: "iri-reply-cycle", val: iriReplyA},
 	{name: "relative-iri", val: "just/a/path"},
 	{name: "public", val: "Public"},
+	{name: "link-href-only", val: map[string]interface{}{"type": "Link", "href": "https://r1.example/n/linked"}},
+	{name: "mention-href-only", val: map[string]interface{}{"type": "Mention", "href": "https://r1.example/u/carol", "name": "@carol"}},
+	{name: "link-id-and-href", val: map[string]interface{}{"type": "Link", "id": "https://r1.example/l/1", "href": "https://r2.example/n/elsewhere"}},
+	{name: "list-of-two", val: []interface{}{"https://r1.example/n/one", map[string]interface{}{"type": "Note", "id": "https://r1.example/n/two"}}},
 }
+
+// legalOps are the operators that put an unusual but LEGAL value in place of a node; they are combined
+// with seam faults (a failure path that meets an unusual value).
+var legalOps = map[string]bool{"remove": true, "empty-list": true, "object-without-id": true, "typeless-object": true, "iri-missing": true,
+	"link-href-only": true, "mention-href-only": true, "link-id-and-href": true, "list-of-two": true}
 
 // mutate applies op at path to a copy of doc.
 func mutate(doc interface{}, p jpath, op mutOp) interface{} {
@@ -417,14 +426,15 @@ func spinningSite() (inner, outer string) {
 }
 
 type hOut struct {
-	Aborted  bool              `json:"aborted"`
-	Scenario string            `json:"scenario"`
-	Evals    int               `json:"evals"`
-	Classes  int               `json:"classes"`
-	Viols    map[string]string `json:"viols"`
-	Reps     map[string]M      `json:"reps"`
-	Outcomes map[string]int    `json:"outcomes"`
-	Sample   interface{}       `json:"sample"`
+	Inexhaustive bool              `json:"inexhaustive"`
+	Aborted      bool              `json:"aborted"`
+	Scenario     string            `json:"scenario"`
+	Evals        int               `json:"evals"`
+	Classes      int               `json:"classes"`
+	Viols        map[string]string `json:"viols"`
+	Reps         map[string]M      `json:"reps"`
+	Outcomes     map[string]int    `json:"outcomes"`
+	Sample       interface{}       `json:"sample"`
 }
 
 // docsRead lists the stored / remote documents a fault-free run reads.
@@ -464,7 +474,11 @@ func handlerPart(sc *Scenario, thorough bool) (out *hOut) {
 			out.Classes = len(classes)
 		}
 	}()
+	var runX func(target, where, opname string, tweak func(a *ap.App), body []byte, x *mc.Exec)
 	run := func(target, where, opname string, tweak func(a *ap.App), body []byte) {
+		runX(target, where, opname, tweak, body, nil)
+	}
+	runX = func(target, where, opname string, tweak func(a *ap.App), body []byte, x *mc.Exec) {
 		s2 := *sc
 		base := sc.Tweak
 		s2.Tweak = func(a *ap.App) {
@@ -485,7 +499,11 @@ func handlerPart(sc *Scenario, thorough bool) (out *hOut) {
 		done := make(chan struct{})
 		go func() {
 			defer close(done)
-			o = s2.Exec(mc.NewExec(nil), false)
+			if x != nil {
+				o = s2.Exec(x, true)
+			} else {
+				o = s2.Exec(mc.NewExec(nil), false)
+			}
 		}()
 		select {
 		case <-done:
@@ -505,8 +523,17 @@ func handlerPart(sc *Scenario, thorough bool) (out *hOut) {
 			panic(shardAbort{})
 		}
 		out.Evals++
-		classes[target+"|"+where+"|"+opname] = struct{}{}
 		rep := M{"check": "C11", "part": "handler", "scenario": sc.Name, "target": target, "path": where, "operator": opname}
+		if x != nil {
+			f := faultOps(x)
+			if len(f) == 0 {
+				out.Evals--
+				return // the fault-free run of this input is counted where it is made without the explorer
+			}
+			opname += "+fault:" + strings.Join(f, ",")
+			rep["choices"], rep["faults"] = x.Choices(), f
+		}
+		classes[target+"|"+where+"|"+opname] = struct{}{}
 		if body != nil {
 			rep["body"] = json.RawMessage(body)
 		}
@@ -646,6 +673,45 @@ func handlerPart(sc *Scenario, thorough bool) (out *hOut) {
 					}
 				}
 				run(tg.name, "/", whole.n, func(a *ap.App) { a.Remote[id] = whole.b }, nil)
+			}
+		}
+	}
+	// faults x unusual-but-legal inputs: the unmutated request and every body node replaced by a legal
+	// unusual value (thorough: every operator, and the documents read as well), each with every single
+	// seam call failing - error paths are where a value of unexpected shape is touched without a check
+	faultRuns := func(tg target, where, opname string, m interface{}) {
+		e := &mc.Explorer{}
+		e.Budget = [3]int{0, 1, 0}
+		e.Run = func(x *mc.Exec) bool {
+			if tg.put == nil {
+				var b []byte
+				if m != nil {
+					b = ap.MustJSON(m)
+				}
+				runX(tg.name, where, opname, nil, b, x)
+			} else {
+				runX(tg.name, where, opname, func(a *ap.App) { tg.put(a, m) }, nil, x)
+			}
+			return true
+		}
+		e.Explore()
+		if !e.Exhaustive {
+			out.Inexhaustive = true
+		}
+	}
+	faultRuns(target{name: "none"}, "", "none", nil)
+	for _, tg := range targets {
+		if tg.put != nil && !thorough {
+			continue
+		}
+		var paths []jpath
+		walkNodes(tg.doc, nil, &paths)
+		for _, p := range paths {
+			for _, op := range mutOps {
+				if !legalOps[op.name] && !thorough {
+					continue
+				}
+				faultRuns(tg, p.String(), op.name, mutate(tg.doc, p, op))
 			}
 		}
 	}
@@ -856,7 +922,7 @@ func C11(tier string) int {
 		for k, v := range h.Outcomes {
 			res.Outcomes[k] += v
 		}
-		if h.Aborted {
+		if h.Aborted || h.Inexhaustive {
 			res.Exhaustive = false
 		}
 		if i%15 == 1 {
@@ -921,7 +987,7 @@ func C11(tier string) int {
 		bound = 2
 	}
 	res.Extra["mutation_bound_completed"] = bound
-	res.Rule = fmt.Sprintf("(1) decoder: every type x every member name (all properties, their Map forms, type, id, @context) x %d junk JSON values x {scalar, list} through decode->encode->decode->encode, plus every example embedded in the vocabulary files with each node mutated by %d operators; (2) handlers: for each of %d scenarios (all entry points), every JSON node of the request body, of every stored / remote document the fault-free run reads and (GetInbox / GetOutbox) of the page the application supplies is, one at a time (thorough: two at a time), removed, nulled, emptied or replaced by a value of another kind (number, bool, array, object without id, unknown type, IRI to a missing / ill-typed / incomplete / unknown-type / garbled / cyclic document), plus whole-document replacements, every such document re-spelled with ActivityStreams imported under an alias (alone and with a stray un-aliased / aliased twin of each reference member holding [], [{}], an IRI, null or three objects) and recursion limits 1,2,4; (3) every POST / Send scenario with exactly one application hook configured (each of 12 hooks, wrapped or as 'other' override); (4) the delivering entry points (client POST, Send, auto-accepted Follow, inbox forwarding) with the library's own HttpSigTransport over a fake HTTP client: a remote collection of 1..17 (thorough: 65) actors of which 0, 1, 2 or all answer the delivery with 500 / 404 / a client error / a mixture; (5) every corpus scenario and the generated addressing family (same collection / target / object named twice) once more as a single request with the application's locks as real non-re-entrant blocking resources (a request waiting for a lock it holds never returns); oracle: no panic, returns within the seam-call horizon (a request still running after 60 s is reported by the process-wide watchdog); distinct = (target document, path, operator)", len(junk)+1, len(mutOps), len(scs))
+	res.Rule = fmt.Sprintf("(1) decoder: every type x every member name (all properties, their Map forms, type, id, @context) x %d junk JSON values x {scalar, list} through decode->encode->decode->encode, plus every example embedded in the vocabulary files with each node mutated by %d operators; (2) handlers: for each of %d scenarios (all entry points), every JSON node of the request body, of every stored / remote document the fault-free run reads and (GetInbox / GetOutbox) of the page the application supplies is, one at a time (thorough: two at a time), removed, nulled, emptied or replaced by a value of another kind (number, bool, array, object without id, unknown type, IRI to a missing / ill-typed / incomplete / unknown-type / garbled / cyclic document; an embedded Link / Mention named by href only, a Link with id and href, a two-element list), plus whole-document replacements, (2b) the unmutated request and every body node replaced by an unusual but legal value (removed, [], object without id, typeless object, unreachable IRI, href-only Link / Mention, Link with id and href, two-element list; thorough: every operator, and the documents read too) each again with every single seam call failing (deviation bound: one mutation + one fault), every such document re-spelled with ActivityStreams imported under an alias (alone and with a stray un-aliased / aliased twin of each reference member holding [], [{}], an IRI, null or three objects) and recursion limits 1,2,4; (3) every POST / Send scenario with exactly one application hook configured (each of 12 hooks, wrapped or as 'other' override); (4) the delivering entry points (client POST, Send, auto-accepted Follow, inbox forwarding) with the library's own HttpSigTransport over a fake HTTP client: a remote collection of 1..17 (thorough: 65) actors of which 0, 1, 2 or all answer the delivery with 500 / 404 / a client error / a mixture; (5) every corpus scenario and the generated addressing family (same collection / target / object named twice) once more as a single request with the application's locks as real non-re-entrant blocking resources (a request waiting for a lock it holds never returns); oracle: no panic, returns within the seam-call horizon (a request still running after 60 s is reported by the process-wide watchdog); distinct = (target document, path, operator)", len(junk)+1, len(mutOps), len(scs))
 	res.Assumptions = []string{"arbitrary byte strings are replaced by a bounded junk alphabet and grammar-based mutations; coverage-guided fuzzing (sampling) is deliberately not used",
 		"a hang that makes no seam call is caught only by the worker timeout"}
 	return res.Finish()
